@@ -26,6 +26,7 @@ import (
 	"strconv"
 	"strings"
 	"sync"
+	"sync/atomic"
 	"testing"
 	"testing/synctest"
 	"time"
@@ -320,6 +321,13 @@ func (c *Case) Bubble(f func(), leaked func(dump string)) {
 	defer close(done)
 	go func() {
 		prev := ""
+		// Spin watchdog, also state based: the same goroutine runnable inside library code in
+		// spinSamples consecutive dumps while the scenario's driver made no step at all (the
+		// driver draws from Rand on every step). Inside a bubble virtual time cannot advance
+		// while any goroutine is runnable, so a library goroutine that never parks stalls the
+		// driver at its next Sleep/Wait for good.
+		spinning := map[string]int{}
+		lastProgress := progress.Load()
 		for {
 			select {
 			case <-done:
@@ -327,7 +335,22 @@ func (c *Case) Bubble(f func(), leaked func(dump string)) {
 			case <-time.After(3 * time.Second):
 			}
 			buf := make([]byte, 4<<20)
-			dump := bubbleStates(string(buf[:runtime.Stack(buf, true)]))
+			full := string(buf[:runtime.Stack(buf, true)])
+			if p := progress.Load(); p != lastProgress {
+				lastProgress, spinning = p, map[string]int{}
+			} else {
+				now := map[string]int{}
+				for id, g := range runnableLibGoroutines(full) {
+					now[id] = spinning[id] + 1
+					if now[id] >= spinSamples {
+						c.Violation("spin/"+outermostLibFrame(g),
+							"a goroutine stayed runnable inside library code for %d consecutive goroutine dumps 3 s apart while the scenario made no step (virtual time cannot advance, every later call is stalled):\n%s", spinSamples, g)
+						c.ExitResume()
+					}
+				}
+				spinning = now
+			}
+			dump := bubbleStates(full)
 			if dump != "" && dump == prev {
 				c.Violation("deadlock/mutex-never-released/"+firstLibFrame(dump),
 					"every goroutine of the scenario is blocked, at least one on a mutex that no running goroutine can release (two identical goroutine dumps 3 s apart):\n%s", dump)
@@ -413,6 +436,7 @@ func NewRand(seed uint64, prop string, idx uint64) *Rand {
 func (r *Rand) Fork() *Rand { return &Rand{s: mix(r.U64())} }
 
 func (r *Rand) U64() uint64 {
+	progress.Add(1)
 	r.s += 0x9e3779b97f4a7c15
 	z := r.s
 	z = (z ^ (z >> 30)) * 0xbf58476d1ce4e5b9
@@ -422,6 +446,14 @@ func (r *Rand) U64() uint64 {
 
 func (r *Rand) U32() uint32 { return uint32(r.U64() >> 32) }
 func (r *Rand) U16() uint16 { return uint16(r.U64() >> 48) }
+
+// EdgeU16 is a 16-bit value that sits within 20 of a wrap/sign boundary half of the time.
+func (r *Rand) EdgeU16() uint16 {
+	if r.Bool() {
+		return r.U16()
+	}
+	return uint16(r.Pick(0, 0xffff, 0xffff, 0x8000, 0x7fff) + r.Range(-20, 20))
+}
 
 // Intn returns a value in [0,n).
 func (r *Rand) Intn(n int) int {
@@ -484,6 +516,46 @@ func (h *Hash) Bytes(b []byte) *Hash {
 }
 func (h *Hash) Str(s string) *Hash { return h.Bytes([]byte(s)) }
 func (h *Hash) Sum() uint64       { return mix(h.h) }
+
+// progress counts the draws from any Rand: the scenario drivers draw on every step.
+var progress atomic.Uint64
+
+const spinSamples = 20
+
+// runnableLibGoroutines maps goroutine id -> stack for the bubble's goroutines that are
+// running or runnable with a library frame on their stack.
+func runnableLibGoroutines(dump string) map[string]string {
+	out := map[string]string{}
+	for _, g := range strings.Split(dump, "\n\n") {
+		head, _, _ := strings.Cut(g, "\n")
+		if !strings.Contains(head, "synctest bubble") || !(strings.Contains(head, "[running") || strings.Contains(head, "[runnable")) {
+			continue
+		}
+		if outermostLibFrame(g) == "?" {
+			continue
+		}
+		f := strings.Fields(head)
+		if len(f) > 1 {
+			out[f[1]] = g
+		}
+	}
+	return out
+}
+
+// outermostLibFrame names the library function lowest on the stack (the goroutine's entry
+// into the library), which is stable while the goroutine spins through its callees.
+func outermostLibFrame(g string) string {
+	fn := "?"
+	for _, ln := range strings.Split(g, "\n") {
+		if strings.HasPrefix(ln, "github.com/pion/interceptor/") && !strings.HasPrefix(ln, "github.com/pion/interceptor/verif/") {
+			fn = strings.TrimPrefix(ln, "github.com/pion/interceptor/")
+			if i := strings.LastIndex(fn, "("); i > 0 {
+				fn = fn[:i]
+			}
+		}
+	}
+	return fn
+}
 
 // bubbleStates returns the stacks of the bubble's goroutines if none of them can run and at
 // least one waits for a mutex; "" otherwise.
